@@ -79,7 +79,27 @@ fn run_cli(ctx: &mut Ctx) {
 
 fn run_subset(ctx: &mut Ctx) {
     let big = gen::chance(1, if ctx.tier == crate::harness::Tier::Thorough { 50 } else { 600 });
-    let Some(m) = make_archive(ctx, if big { 3 << 20 } else { 48 * 1024 }, big, Some(2)) else { return };
+    // a third of the archives comes from the independent encoder: gaps, permuted storage and
+    // (here only) descriptors listed in an order other than first occurrence
+    let m = if gen::chance(1, 3) {
+        let cfg = gen::gen_config(false, false);
+        let comp = gen::gen_compression();
+        let comp = if comp.expensive() { gen::Comp::None } else { comp };
+        let hash_len = gen::gen_hash_length();
+        let (sspec, data) = gen::gen_source(&cfg, 32 * 1024);
+        let enc = crate::refmodel::encoder::encode_with(&data, &cfg, comp, hash_len, &Default::default(), gen::chance(1, 2));
+        simkit::count("archive-from-independent-encoder");
+        crate::props::c01::Made {
+            spec: scen::CompressSpec { cfg, comp, hash_len, buffers: 1, metadata: Default::default(), verbose: 0 },
+            source: Arc::new(data),
+            archive: enc.archive,
+            writer: "ref-encoder",
+            desc: json!({"encoding": enc.desc, "source": sspec.json()}),
+        }
+    } else {
+        let Some(m) = make_archive(ctx, if big { 3 << 20 } else { 48 * 1024 }, big, Some(2)) else { return };
+        m
+    };
     let ra = match decode_archive(&m.archive) {
         Ok(a) => a,
         Err(e) => {
